@@ -4,6 +4,10 @@ import json, os, subprocess
 V = os.path.dirname(os.path.dirname(os.path.abspath(__file__)))
 
 CHECKS = {
+ "C12": dict(level="model_checking", design="DESIGN.md 3/C12",
+   technique="TLA+ ordered-map model + concrete hash-table model (spec/Hashtable.tla, C12MC.tla): refinement model-checked; every transition of the product replayed on the real dict/set (spec->code); exhaustive operation sequences and long adversarial histories validated by TLC (code->spec)",
+   text="(1) TLC proves on scaled-down constants (BucketSize 2, growth and chain overflow reachable) that the concrete table design refines the insertion-ordered association list. (2) TLC explores the product of the abstract map and the concrete table with the real constants over the property's universe (keys of which 3 share one hash, one with hash 0) and emits every transition with a shortest path; each is replayed on the real dict and set through the Go API and through Starlark methods/operators with host keys whose Hash() the model dictates, comparing results, length, membership, lookups and full iteration order. (3) every operation sequence of length 4 (quick) / 5 plus a sample of length 7 (thorough) over the 12-operation reduced alphabet is executed on the real dict and set and validated step by step by TLC. (4) random histories of 10^4-4x10^4 operations over keys with five adversarial hash distributions (all equal, equal modulo table size, 0/1, spread, seven classes) are logged and validated by TLC against the abstract module.",
+   note="Trusted: TLC, the JSON edge encoding, host keys with dictated hashes. The concrete model is used to generate histories and for the design check, never as the oracle. Quick tier uses 4 keys for the transition cover, thorough 5."),
  "C08": dict(level="model_checking", design="DESIGN.md 3/C08",
    technique="TLA+ binding relation (spec/Binding.tla) + TLC validation of every (signature, call) record executed by the real pipeline and of direct UnpackArgs calls (code->spec), exhaustive over the bounded domain",
    text="The property's bounded domain is enumerated completely in the quick tier for <=2 positional/<=1 keyword-only parameters (72 signatures x 1280 call shapes) and by a 45% seeded sample of the full domain (280 signatures, <=4 positional arguments, '*' of length 0-3) in the thorough tier; each call is compiled and run by the real interpreter and TLC checks the recorded binding, value by value, against Binding!Bind (the Python 3 rule); UnpackArgs/UnpackPositionalArgs are driven directly over all specs of <=3 parameters x markers x 10 target types x call shapes x 11 argument kinds and checked against Binding!UnpackOK including the target-preservation rule.",
